@@ -29,7 +29,7 @@ func init() {
 			Rule:       "one Client; a history of 2-8 operations over {Start, Client, Protocol, ReattachConfig, ID, Exited, Kill} issued sequentially or from up to 4 concurrent goroutines with drawn offsets; plus ONE CONTEXT SWITCH PLACED AT EVERY STATEMENT: stage 0 profiles the go-plugin statements goroutine 0 passes inside each operation of Start, Client, Kill (well-behaved and failing plugins, command and custom runner), stage 1 runs one case per (operation A, statement, operation B) in which goroutine 1 issues B exactly while goroutine 0 is at that statement of A; plugin kinds {starts correctly net/rpc, starts correctly gRPC, fails the handshake, times out, exits early} x launch {command, custom runner}; all sequences of length <=3 over {Start, Client, Kill} enumerated per plugin kind and launch, longer and concurrent histories seeded with schedule noise in Client.Start/Client/Kill; thorough tier repeats a sample under the race detector. Oracle: the kernel saw at most one spawn for this client (and no spawn after Kill returned), every successful Start returned the identical address and every successful Client the identical protocol client, no call hangs or panics, and the invoke/return history (stamped with the simulator's global event sequence numbers) is linearizable (porcupine) against a sequential reference model of the Client: {fresh, started(addr), failed, killed}",
 			Exhaustive: "all operation sequences of length <=3 over {Start, Client, Kill} x plugin kind x launch method"},
 		Plan: func(tier string, seed uint64, stage int, prev []*h.Result) []*k.Spec {
-			kinds := []string{"ok-netrpc", "ok-grpc", "bad-handshake", "timeout", "exits-early", "runner-start-fails"}
+			kinds := []string{"ok-netrpc", "ok-grpc", "bad-handshake", "timeout", "exits-early", "runner-start-fails", "ok-grpc-auto", "ok-netrpc-auto"}
 			launches := []string{"cmd", "runner"}
 			if stage == 1 && tier != "selftest" {
 				// one context switch, placed at every statement: while goroutine 0 is at
@@ -66,9 +66,9 @@ func init() {
 			}
 			var out []*k.Spec
 			if tier != "selftest" {
-				pk := []string{"ok-grpc", "bad-handshake"}
+				pk := []string{"ok-grpc", "bad-handshake", "ok-grpc-auto"}
 				if tier == "thorough" {
-					pk = []string{"ok-netrpc", "ok-grpc", "bad-handshake", "exits-early", "runner-start-fails"}
+					pk = []string{"ok-netrpc", "ok-grpc", "bad-handshake", "exits-early", "runner-start-fails", "ok-grpc-auto", "ok-netrpc-auto"}
 				}
 				for _, kd := range pk {
 					for _, l := range launches {
@@ -248,6 +248,10 @@ func runC19(r *h.Run) {
 		r.InstallPlugin(&c)
 	case "ok-grpc":
 		c.Proto = "grpc"
+		r.InstallPlugin(&c)
+	case "ok-grpc-auto", "ok-netrpc-auto":
+		// AutoMTLS: Start generates a certificate on its way
+		c.Proto, c.TLS = strings.TrimSuffix(strings.TrimPrefix(kind, "ok-"), "-auto"), "auto"
 		r.InstallPlugin(&c)
 	case "bad-handshake":
 		c.Proto, c.Path = "netrpc", "/bin/bad"
